@@ -1,98 +1,2 @@
-(* GENERATED by tools/gotrans (gotrans handlers <repo> <out.v>) from the Go sources - DO NOT EDIT.
-   Regenerated by ./check on every run; the committed copy only makes a fresh `make` work. *)
-From Coq Require Import String List.
-From Elys Require Import Models.Authority.
-Import ListNotations.
-Open Scope string_scope.
-
-Definition handlers : list handler := [
-  mkH "amm" "CreatePool" "MsgCreatePool" false "Sender" [SPure; SRead "k.GetParams"; SCheck; SPure; SPure; SRead "k.CheckBaseAssetExist"; SCheck; SRead "k.CheckBaseAssetExist"; SCheck; SWrite "k.bankKeeper.SendCoinsFromAccountToModule"; SPure; SRead "k.assetProfileKeeper.GetUsdcDenom"; SCheck; SPure; SRead "k.GetNextPoolId"; SPure; SCheck; SPure; SCheck; SPure; SWrite "utils.CreateModuleAccount"; SWrite "pool.TVL"; SCheck; SPure; SPure; SPure; SWrite "k.bankKeeper.MintCoins"; SCheck; SWrite "k.bankKeeper.SendCoinsFromModuleToAccount"; SCheck; SRead "k.assetProfileKeeper.GetEntry"; SWrite "k.assetProfileKeeper.SetEntry"; SPure; SPure; SWrite "k.commitmentKeeper.CommitLiquidTokens"; SCheck; SCheck; SPure; SPure; SWrite "k.bankKeeper.SetDenomMetaData"; SWrite "k.SetPool"; SWrite "k.hooks.AfterPoolCreated"; SCheck; SPure; SWrite "k.bankKeeper.SendCoins"; SCheck; SWrite "k.RecordTotalLiquidityIncrease"; SCheck; SPure; SReturn];
-  mkH "amm" "ExitPool" "MsgExitPool" false "Sender" [SPure; SPure; SCheck; SRead "k.GetPool"; SCheck; SPure; SCheck; SRead "k.GetParams"; SWrite "pool.ExitPool"; SCheck; SCheck; SPure; SWrite "k.commitmentKeeper.UncommitTokens"; SCheck; SWrite "k.bankKeeper.SendCoins"; SPure; SPure; SWrite "k.bankKeeper.SendCoinsFromAccountToModule"; SWrite "k.bankKeeper.BurnCoins"; SCheck; SWrite "k.SetPool"; SPure; SWrite "k.hooks.AfterExitPool"; SCheck; SWrite "k.RecordTotalLiquidityDecrease"; SCheck; SCheck; SPure; SReturn];
-  mkH "amm" "FeedMultipleExternalLiquidity" "MsgFeedMultipleExternalLiquidity" false "Sender" [SPure; SKeyedLookup "Sender" "k.oracleKeeper.GetPriceFeeder"; SCheck; SCheck; SWrite "k.SetPool"; SReturn];
-  mkH "amm" "JoinPool" "MsgJoinPool" false "Sender" [SPure; SPure; SCheck; SPure; SRead "k.GetPool"; SCheck; SWrite "k.GetAccountedPoolSnapshotOrSet"; SRead "k.GetParams"; SWrite "k.GetAccountedPoolSnapshotOrSet"; SWrite "pool.JoinPool"; SCheck; SPure; SWrite "k.bankKeeper.SendCoins"; SPure; SPure; SWrite "k.bankKeeper.MintCoins"; SCheck; SWrite "k.bankKeeper.SendCoinsFromModuleToAccount"; SCheck; SRead "k.assetProfileKeeper.GetEntry"; SWrite "k.assetProfileKeeper.SetEntry"; SPure; SPure; SWrite "k.commitmentKeeper.CommitLiquidTokens"; SCheck; SCheck; SWrite "k.SetPool"; SPure; SWrite "k.bankKeeper.SendCoins"; SPure; SWrite "k.hooks.AfterJoinPool"; SCheck; SWrite "k.RecordTotalLiquidityIncrease"; SCheck; SCheck; SPure; SReturn];
-  mkH "amm" "SwapByDenom" "MsgSwapByDenom" false "Sender" [SPure; SPure; SCheck; SRead "k.assetProfileKeeper.GetUsdcDenom"; SCheck; SPure; SPure; SPure; SRead "k.tierKeeper.GetMembershipTier"; SPure; SPure; SPure; SMayReturn; SMayReturn; SRead "k.CalcInRouteSpotPrice"; SMayReturn; SPure; SCheck; SWrite "k.SwapExactAmountIn"; SWrite "k.SwapExactAmountOut"; SReturn];
-  mkH "amm" "SwapExactAmountIn" "MsgSwapExactAmountIn" false "Sender" [SPure; SPure; SPure; SCheck; SPure; SPure; SWrite "k.bankKeeper.BlockedAddr"; SWrite "ctx.CacheContext"; SPure; SPure; SCheck; SWrite "k.isElysRoutedMultihop"; SPure; SRead "k.tierKeeper.GetMembershipTier"; SPure; SWrite "k.InternalSwapExactAmountIn"; SCheck; SWrite "k.GetLastSwapRequestIndex"; SWrite "k.SetSwapExactAmountInRequests"; SWrite "k.SetLastSwapRequestIndex"; SReturn];
-  mkH "amm" "SwapExactAmountOut" "MsgSwapExactAmountOut" false "Sender" [SPure; SPure; SPure; SCheck; SPure; SPure; SWrite "k.bankKeeper.BlockedAddr"; SWrite "ctx.CacheContext"; SPure; SPure; SCheck; SPure; SWrite "k.isElysRoutedMultihop"; SPure; SPure; SWrite "k.createElysMultihopExpectedSwapOuts"; SCheck; SMayReturn; SPure; SRead "k.tierKeeper.GetMembershipTier"; SPure; SWrite "k.InternalSwapExactAmountOut"; SCheck; SWrite "k.GetLastSwapRequestIndex"; SWrite "k.SetSwapExactAmountOutRequests"; SWrite "k.SetLastSwapRequestIndex"; SReturn];
-  mkH "amm" "UpdateParams" "MsgUpdateParams" true "Authority" [SPure; SGuardAuthority "Authority"; SWrite "k.Keeper.SetParams"; SReturn];
-  mkH "amm" "UpdatePoolParams" "MsgUpdatePoolParams" true "Authority" [SPure; SGuardAuthority "Authority"; SRead "k.GetPool"; SCheck; SRead "k.assetProfileKeeper.GetUsdcDenom"; SCheck; SPure; SPure; SWrite "k.SetPool"; SCheck; SReturn];
-  mkH "assetprofile" "AddEntry" "MsgAddEntry" false "Creator" [SPure; SRead "k.GetEntry"; SCheck; SPure; SCheck; SPure; SWrite "k.SetEntry"; SReturn];
-  mkH "assetprofile" "DeleteEntry" "MsgDeleteEntry" true "Authority" [SGuardAuthority "Authority"; SPure; SRead "k.GetEntry"; SCheck; SGuardOwner "Authority" "entry.Authority"; SWrite "k.RemoveEntry"; SReturn];
-  mkH "assetprofile" "UpdateEntry" "MsgUpdateEntry" true "Authority" [SGuardAuthority "Authority"; SPure; SRead "k.GetEntry"; SCheck; SGuardOwner "Authority" "entry.Authority"; SPure; SCheck; SPure; SWrite "k.SetEntry"; SReturn];
-  mkH "burner" "UpdateParams" "MsgUpdateParams" true "Authority" [SPure; SGuardAuthority "Authority"; SCheck; SRead "k.GetParams"; SPure; SWrite "k.SetParams"; SReturn];
-  mkH "commitment" "CancelVest" "MsgCancelVest" false "Creator" [SPure; SCheck; SRead "k.GetVestingInfo"; SCheck; SPure; SRead "k.GetCommitments"; SPure; SPure; SPure; SPure; SPure; SCheck; SPure; SWrite "k.SetCommitments"; SPure; SReturn];
-  mkH "commitment" "ClaimVesting" "MsgClaimVesting" false "Sender" [SPure; SPure; SRead "k.GetCommitments"; SPure; SPure; SWrite "vesting.VestedSoFar"; SPure; SWrite "k.bankKeeper.MintCoins"; SWrite "k.SetCommitments"; SPure; SReturn];
-  mkH "commitment" "CommitClaimedRewards" "MsgCommitClaimedRewards" false "Creator" [SPure; SPure; SRead "k.assetProfileKeeper.GetEntry"; SCheck; SCheck; SRead "k.GetParams"; SPure; SWrite "k.SetParams"; SPure; SRead "k.GetCommitments"; SWrite "k.hooks.BeforeEdenCommitChange"; SWrite "k.hooks.BeforeEdenBCommitChange"; SWrite "commitments.SubClaimed"; SCheck; SWrite "commitments.AddCommittedTokens"; SWrite "k.SetCommitments"; SMayReturn; SWrite "k.hooks.CommitmentChanged"; SCheck; SPure; SReturn];
-  mkH "commitment" "Stake" "MsgStake" false "Creator" [SPure; SWrite "k.performStakeElys"; SReturn];
-  mkH "commitment" "UncommitTokens" "MsgUncommitTokens" false "Creator" [SPure; SPure; SCheck; SCheck; SRead "k.assetProfileKeeper.GetEntry"; SCheck; SCheck; SRead "k.GetCommitments"; SWrite "k.hooks.BeforeEdenCommitChange"; SWrite "k.hooks.BeforeEdenBCommitChange"; SWrite "commitments.DeductFromCommitted"; SCheck; SWrite "k.SetCommitments"; SPure; SPure; SPure; SWrite "commitments.AddClaimed"; SWrite "commitments.AddClaimed"; SWrite "k.SetCommitments"; SMayReturn; SWrite "k.hooks.CommitmentChanged"; SCheck; SPure; SWrite "k.bankKeeper.SendCoinsFromModuleToAccount"; SRead "k.GetParams"; SPure; SWrite "k.SetParams"; SWrite "k.EdenUncommitted"; SPure; SCheck; SReturn];
-  mkH "commitment" "Unstake" "MsgUnstake" false "Creator" [SPure; SWrite "k.performUnstakeElys"; SReturn];
-  mkH "commitment" "UpdateEnableVestNow" "MsgUpdateEnableVestNow" true "Authority" [SPure; SGuardAuthority "Authority"; SRead "k.GetParams"; SPure; SWrite "k.SetParams"; SReturn];
-  mkH "commitment" "UpdateVestingInfo" "MsgUpdateVestingInfo" true "Authority" [SPure; SGuardAuthority "Authority"; SRead "k.GetParams"; SRead "k.GetVestingInfo"; SPure; SPure; SCheck; SWrite "k.SetParams"; SReturn];
-  mkH "commitment" "Vest" "MsgVest" false "Creator" [SPure; SPure; SRead "k.GetVestingInfo"; SCheck; SRead "k.GetCommitments"; SPure; SCheck; SRead "k.GetCommitments"; SWrite "commitments.SubClaimed"; SCheck; SCheck; SPure; SPure; SWrite "k.SetCommitments"; SPure; SCheck; SReturn];
-  mkH "commitment" "VestLiquid" "MsgVestLiquid" false "Creator" [SPure; SPure; SRead "k.assetProfileKeeper.GetEntry"; SCheck; SCheck; SPure; SWrite "k.bankKeeper.SendCoinsFromAccountToModule"; SCheck; SRead "k.GetCommitments"; SWrite "commitments.AddClaimed"; SWrite "k.SetCommitments"; SCheck; SRead "k.GetVestingInfo"; SCheck; SRead "k.GetCommitments"; SPure; SCheck; SRead "k.GetCommitments"; SWrite "commitments.SubClaimed"; SCheck; SCheck; SPure; SPure; SWrite "k.SetCommitments"; SPure; SCheck; SReturn];
-  mkH "commitment" "VestNow" "MsgVestNow" false "Creator" [SPure; SRead "k.GetParams"; SCheck; SRead "k.GetVestingInfo"; SCheck; SPure; SRead "k.GetCommitments"; SWrite "commitments.SubClaimed"; SCheck; SCheck; SCheck; SPure; SPure; SWrite "k.bankKeeper.MintCoins"; SWrite "k.bankKeeper.SendCoinsFromModuleToAccount"; SCheck; SWrite "k.SetCommitments"; SPure; SReturn];
-  mkH "estaking" "UpdateParams" "MsgUpdateParams" true "Authority" [SGuardAuthority "Authority"; SPure; SWrite "k.SetParams"; SReturn];
-  mkH "estaking" "WithdrawAllRewards" "MsgWithdrawAllRewards" false "DelegatorAddress" [SPure; SPure; SPure; SPure; SPure; SKeyedLookup "DelegatorAddress" "k.IterateDelegations"; SCheck; SCheck; SReturn];
-  mkH "estaking" "WithdrawElysStakingRewards" "MsgWithdrawElysStakingRewards" false "DelegatorAddress" [SPure; SPure; SPure; SPure; SPure; SKeyedLookup "DelegatorAddress" "k.Keeper.Keeper.IterateDelegations"; SCheck; SCheck; SCheck; SReturn];
-  mkH "estaking" "WithdrawReward" "MsgWithdrawReward" false "DelegatorAddress" [SPure; SPure; SPure; SCheck; SWrite "k.distrKeeper.WithdrawDelegationRewards"; SCheck; SPure; SReturn];
-  mkH "leveragelp" "AddPool" "MsgAddPool" true "Authority" [SPure; SGuardAuthority "Authority"; SRead "k.amm.GetPool"; SCheck; SCheck; SRead "k.GetPool"; SCheck; SRead "k.GetMaxLeverageParam"; SPure; SPure; SWrite "k.SetPool"; SWrite "k.hooks.AfterEnablingPool"; SReturn];
-  mkH "leveragelp" "ClaimRewards" "MsgClaimRewards" false "Sender" [SPure; SPure; SWrite "k.masterchefKeeper.ClaimRewards"; SReturn];
-  mkH "leveragelp" "Close" "MsgClose" false "Creator" [SPure; SPure; SKeyedLookup "Creator" "k.GetPosition"; SCheck; SRead "k.GetPool"; SCheck; SRead "k.GetPositionHealth"; SCheck; SRead "k.GetSafetyFactor"; SPure; SPure; SWrite "k.ForceCloseLong"; SCheck; SWrite "k.hooks.AfterLeverageLpPositionClose"; SPure; SReturn];
-  mkH "leveragelp" "ClosePositions" "MsgClosePositions" false "Creator" [SPure; SPure; SWrite "k.CheckAndLiquidateUnhealthyPosition"; SPure; SWrite "k.CheckAndCloseAtStopLoss"; SPure; SReturn];
-  mkH "leveragelp" "Dewhitelist" "MsgDewhitelist" true "Authority" [SPure; SGuardAuthority "Authority"; SPure; SWrite "k.Keeper.DewhitelistAddress"; SReturn];
-  mkH "leveragelp" "Open" "MsgOpen" false "Creator" [SPure; SCheck; SRead "k.stableKeeper.GetParams"; SPure; SWrite "k.stableKeeper.GetDepositDenom"; SRead "k.bankKeeper.GetBalance"; SPure; SPure; SPure; SPure; SRead "k.GetPool"; SCheck; SRead "k.amm.GetPool"; SCheck; SPure; SCheck; SWrite "k.OpenConsolidate"; SWrite "k.CheckMaxOpenPositions"; SCheck; SPure; SRead "k.GetPositionCount"; SPure; SWrite "k.SetPositionCount"; SWrite "k.GetOpenPositionCount"; SWrite "k.SetOpenPositionCount"; SPure; SRead "k.GetMaxLeverageParam"; SPure; SRead "k.GetPool"; SCheck; SRead "k.assetProfileKeeper.GetUsdcDenom"; SCheck; SCheck; SPure; SPure; SWrite "k.bankKeeper.SendCoins"; SCheck; SPure; SPure; SWrite "k.stableKeeper.Borrow"; SWrite "k.amm.JoinPoolNoSwap"; SCheck; SPure; SWrite "k.UpdatePoolHealth"; SRead "k.GetPositionHealth"; SCheck; SRead "k.GetSafetyFactor"; SCheck; SPure; SPure; SPure; SPure; SWrite "k.SetPosition"; SCheck; SCheck; SWrite "k.hooks.AfterLeverageLpPositionOpen"; SPure; SPure; SReturn];
-  mkH "leveragelp" "RemovePool" "MsgRemovePool" true "Authority" [SPure; SGuardAuthority "Authority"; SRead "k.amm.GetPool"; SCheck; SRead "k.GetPool"; SCheck; SCheck; SWrite "k.DeletePool"; SWrite "k.hooks.AfterDisablingPool"; SReturn];
-  mkH "leveragelp" "UpdateParams" "MsgUpdateParams" true "Authority" [SPure; SGuardAuthority "Authority"; SCheck; SWrite "k.storeService.OpenKVStore"; SWrite "k.cdc.Marshal"; SCheck; SPure; SCheck; SReturn];
-  mkH "leveragelp" "UpdateStopLoss" "MsgUpdateStopLoss" false "Creator" [SPure; SKeyedLookup "Creator" "k.GetPositionWithId"; SCheck; SPure; SRead "k.GetPool"; SCheck; SPure; SWrite "k.SetPosition"; SPure; SPure; SReturn];
-  mkH "leveragelp" "Whitelist" "MsgWhitelist" true "Authority" [SPure; SGuardAuthority "Authority"; SPure; SWrite "k.Keeper.WhitelistAddress"; SReturn];
-  mkH "masterchef" "AddExternalIncentive" "MsgAddExternalIncentive" false "Sender" [SPure; SPure; SCheck; SCheck; SCheck; SPure; SRead "k.GetParams"; SCheck; SCheck; SPure; SWrite "k.bankKeeper.SendCoinsFromAccountToModule"; SCheck; SRead "k.GetExternalIncentiveIndex"; SWrite "k.Keeper.SetExternalIncentive"; SWrite "k.SetExternalIncentiveIndex"; SPure; SReturn];
-  mkH "masterchef" "AddExternalRewardDenom" "MsgAddExternalRewardDenom" true "Authority" [SPure; SGuardAuthority "Authority"; SRead "k.GetParams"; SPure; SPure; SPure; SPure; SPure; SWrite "k.SetParams"; SPure; SReturn];
-  mkH "masterchef" "ClaimRewards" "MsgClaimRewards" false "Sender" [SPure; SPure; SRead "k.GetAllPoolInfos"; SPure; SPure; SWrite "k.AfterWithdraw"; SPure; SWrite "k.commitmentKeeper.SendCoinsFromModuleToAccount"; SCheck; SCheck; SReturn];
-  mkH "masterchef" "TogglePoolEdenRewards" "MsgTogglePoolEdenRewards" true "Authority" [SPure; SGuardAuthority "Authority"; SRead "k.GetPoolInfo"; SCheck; SPure; SWrite "k.SetPoolInfo"; SReturn];
-  mkH "masterchef" "UpdateParams" "MsgUpdateParams" true "Authority" [SPure; SGuardAuthority "Authority"; SCheck; SWrite "k.SetParams"; SReturn];
-  mkH "masterchef" "UpdatePoolMultipliers" "MsgUpdatePoolMultipliers" true "Authority" [SPure; SGuardAuthority "Authority"; SWrite "k.Keeper.UpdatePoolMultipliers"; SReturn];
-  mkH "oracle" "AddPriceFeeders" "MsgAddPriceFeeders" true "Authority" [SPure; SGuardAuthority "Authority"; SWrite "k.Keeper.SetPriceFeeder"; SReturn];
-  mkH "oracle" "CreateAssetInfo" "MsgCreateAssetInfo" false "Creator" [SPure; SRead "k.GetAssetInfo"; SCheck; SWrite "k.Keeper.SetAssetInfo"; SReturn];
-  mkH "oracle" "DeletePriceFeeder" "MsgDeletePriceFeeder" false "Feeder" [SPure; SPure; SKeyedLookup "Feeder" "k.Keeper.GetPriceFeeder"; SCheck; SWrite "k.RemovePriceFeeder"; SReturn];
-  mkH "oracle" "FeedMultiplePrices" "MsgFeedMultiplePrices" false "Creator" [SPure; SPure; SKeyedLookup "Creator" "k.Keeper.GetPriceFeeder"; SCheck; SCheck; SWrite "k.SetPrice"; SReturn];
-  mkH "oracle" "FeedPrice" "MsgFeedPrice" false "Provider" [SPure; SPure; SKeyedLookup "Provider" "k.Keeper.GetPriceFeeder"; SCheck; SCheck; SPure; SWrite "k.SetPrice"; SReturn];
-  mkH "oracle" "RemoveAssetInfo" "MsgRemoveAssetInfo" true "Authority" [SPure; SGuardAuthority "Authority"; SWrite "k.Keeper.RemoveAssetInfo"; SReturn];
-  mkH "oracle" "RemovePriceFeeders" "MsgRemovePriceFeeders" true "Authority" [SPure; SGuardAuthority "Authority"; SWrite "k.Keeper.RemovePriceFeeder"; SReturn];
-  mkH "oracle" "SetPriceFeeder" "MsgSetPriceFeeder" false "Feeder" [SPure; SPure; SKeyedLookup "Feeder" "k.Keeper.GetPriceFeeder"; SCheck; SWrite "k.Keeper.SetPriceFeeder"; SReturn];
-  mkH "oracle" "UpdateParams" "MsgUpdateParams" true "Authority" [SPure; SGuardAuthority "Authority"; SWrite "k.Keeper.SetParams"; SReturn];
-  mkH "parameter" "UpdateMaxVotingPower" "MsgUpdateMaxVotingPower" false "Creator" [SPure; SGuardAuthority "Creator"; SRead "k.GetParams"; SPure; SWrite "k.SetParams"; SReturn];
-  mkH "parameter" "UpdateMinCommission" "MsgUpdateMinCommission" false "Creator" [SPure; SGuardAuthority "Creator"; SRead "k.GetParams"; SPure; SWrite "k.SetParams"; SReturn];
-  mkH "parameter" "UpdateMinSelfDelegation" "MsgUpdateMinSelfDelegation" false "Creator" [SPure; SGuardAuthority "Creator"; SRead "k.GetParams"; SPure; SWrite "k.SetParams"; SReturn];
-  mkH "parameter" "UpdateRewardsDataLifetime" "MsgUpdateRewardsDataLifetime" false "Creator" [SPure; SGuardAuthority "Creator"; SRead "k.GetParams"; SPure; SWrite "k.SetParams"; SReturn];
-  mkH "parameter" "UpdateTotalBlocksPerYear" "MsgUpdateTotalBlocksPerYear" false "Creator" [SPure; SGuardAuthority "Creator"; SRead "k.GetParams"; SPure; SWrite "k.SetParams"; SReturn];
-  mkH "perpetual" "Close" "MsgClose" false "Creator" [SPure; SRead "k.assetProfileKeeper.GetEntry"; SCheck; SPure; SPure; SKeyedLookup "Creator" "k.GetMTP"; SCheck; SRead "k.GetAmmPool"; SCheck; SWrite "k.UpdateMTPBorrowInterestUnpaidLiability"; SRead "k.GetPool"; SCheck; SWrite "k.SettleMTPBorrowInterestUnpaidLiability"; SWrite "k.SettleFunding"; SCheck; SPure; SPure; SPure; SWrite "k.EstimateAndRepay"; SCheck; SWrite "k.hooks.AfterPerpetualPositionClosed"; SCheck; SWrite "k.EmitCloseEvent"; SReturn];
-  mkH "perpetual" "ClosePositions" "MsgClosePositions" false "Creator" [SPure; SRead "k.assetProfileKeeper.GetEntry"; SMayReturn; SPure; SWrite "ctx.CacheContext"; SPure; SWrite "ctx.CacheContext"; SPure; SWrite "ctx.CacheContext"; SPure; SReturn];
-  mkH "perpetual" "Dewhitelist" "MsgDewhitelist" true "Authority" [SPure; SGuardAuthority "Authority"; SPure; SCheck; SWrite "k.Keeper.DewhitelistAddress"; SReturn];
-  mkH "perpetual" "Open" "MsgOpen" false "Creator" [SPure; SRead "k.assetProfileKeeper.GetEntry"; SCheck; SPure; SCheck; SRead "k.GetParams"; SRead "k.GetAssetPrice"; SCheck; SPure; SCheck; SCheck; SCheck; SRead "k.CheckSameAssetPosition"; SWrite "k.CheckMaxOpenPositions"; SPure; SRead "k.GetAmmPool"; SCheck; SCheck; SRead "k.GetPool"; SCheck; SRead "k.GetPool"; SCheck; SWrite "k.GetPoolOpenThreshold"; SCheck; SRead "k.CheckMinimumCustodyAmt"; SCheck; SCheck; SRead "k.GetMaxLeverageParam"; SPure; SPure; SPure; SPure; SCheck; SPure; SRead "k.GetPool"; SCheck; SRead "k.GetAmmPool"; SCheck; SPure; SPure; SWrite "k.EstimateSwapGivenOut"; SCheck; SWrite "k.Borrow"; SCheck; SWrite "k.UpdatePoolHealth"; SRead "k.GetMTPHealth"; SCheck; SRead "k.GetSafetyFactor"; SCheck; SPure; SRead "k.GetLiquidationPrice"; SPure; SWrite "k.SetMTP"; SCheck; SCheck; SWrite "k.UpdateOpenPrice"; SCheck; SWrite "k.OpenConsolidate"; SRead "k.GetPool"; SCheck; SWrite "k.GetPoolOpenThreshold"; SCheck; SRead "k.CheckMinimumCustodyAmt"; SCheck; SCheck; SWrite "k.EmitOpenEvent"; SPure; SWrite "k.hooks.AfterPerpetualPositionOpen"; SKeyedLookup "Creator" "k.GetMTP"; SCheck; SRead "k.GetAmmPool"; SCheck; SRead "k.GetMTPHealth"; SCheck; SCheck; SCheck; SReturn];
-  mkH "perpetual" "UpdateParams" "MsgUpdateParams" true "Authority" [SPure; SGuardAuthority "Authority"; SCheck; SWrite "k.storeService.OpenKVStore"; SWrite "k.cdc.Marshal"; SCheck; SPure; SCheck; SWrite "k.hooks.AfterParamsChange"; SReturn];
-  mkH "perpetual" "UpdateStopLoss" "MsgUpdateStopLoss" false "Creator" [SPure; SPure; SKeyedLookup "Creator" "k.GetMTP"; SCheck; SPure; SRead "k.GetPool"; SCheck; SRead "k.GetAssetPrice"; SCheck; SCheck; SCheck; SPure; SWrite "k.SetMTP"; SCheck; SPure; SPure; SReturn];
-  mkH "perpetual" "UpdateTakeProfitPrice" "MsgUpdateTakeProfitPrice" false "Creator" [SPure; SPure; SKeyedLookup "Creator" "k.GetMTP"; SCheck; SPure; SRead "k.GetPool"; SCheck; SRead "k.GetParams"; SRead "k.GetAssetPrice"; SCheck; SPure; SCheck; SCheck; SPure; SPure; SRead "k.CalcMTPTakeProfitLiability"; SCheck; SPure; SCheck; SPure; SCheck; SWrite "k.SetMTP"; SCheck; SWrite "k.SetPool"; SRead "k.GetAmmPool"; SCheck; SWrite "k.hooks.AfterPerpetualPositionModified"; SPure; SPure; SReturn];
-  mkH "perpetual" "Whitelist" "MsgWhitelist" true "Authority" [SPure; SGuardAuthority "Authority"; SPure; SCheck; SWrite "k.Keeper.WhitelistAddress"; SReturn];
-  mkH "stablestake" "Bond" "MsgBond" false "Creator" [SPure; SRead "k.GetParams"; SPure; SRead "k.GetRedemptionRate"; SWrite "k.GetDepositDenom"; SPure; SWrite "k.bk.SendCoinsFromAccountToModule"; SCheck; SPure; SPure; SPure; SPure; SWrite "k.bk.MintCoins"; SCheck; SWrite "k.bk.SendCoinsFromModuleToAccount"; SCheck; SRead "k.assetProfileKeeper.GetEntry"; SWrite "k.assetProfileKeeper.SetEntry"; SWrite "k.commitmentKeeper.CommitLiquidTokens"; SCheck; SPure; SWrite "k.SetParams"; SWrite "k.hooks.AfterBond"; SReturn];
-  mkH "stablestake" "Unbond" "MsgUnbond" false "Creator" [SPure; SRead "k.GetParams"; SPure; SRead "k.GetRedemptionRate"; SPure; SWrite "k.commitmentKeeper.UncommitTokens"; SCheck; SPure; SPure; SWrite "k.bk.SendCoinsFromAccountToModule"; SCheck; SWrite "k.bk.BurnCoins"; SCheck; SPure; SWrite "k.GetDepositDenom"; SPure; SWrite "k.bk.SendCoinsFromModuleToAccount"; SCheck; SPure; SWrite "k.SetParams"; SWrite "k.hooks.AfterUnbond"; SReturn];
-  mkH "stablestake" "UpdateParams" "MsgUpdateParams" true "Authority" [SPure; SGuardAuthority "Authority"; SRead "k.GetParams"; SPure; SWrite "k.SetParams"; SReturn];
-  mkH "tier" "SetPortfolio" "MsgSetPortfolio" false "Creator" [SPure; SPure; SWrite "k.RetrieveAllPortfolio"; SReturn];
-  mkH "tokenomics" "ClaimAirdrop" "MsgClaimAirdrop" false "Sender" [SPure; SKeyedLookup "Sender" "k.GetAirdrop"; SCheck; SGuardOwner "Sender" "airdrop.Authority"; SCheck; SPure; SRead "k.commitmentKeeper.GetCommitments"; SWrite "commitments.AddClaimed"; SWrite "k.commitmentKeeper.SetCommitments"; SWrite "k.RemoveAirdrop"; SReturn];
-  mkH "tokenomics" "CreateAirdrop" "MsgCreateAirdrop" true "Authority" [SGuardAuthority "Authority"; SPure; SRead "k.GetAirdrop"; SCheck; SPure; SWrite "k.SetAirdrop"; SReturn];
-  mkH "tokenomics" "CreateTimeBasedInflation" "MsgCreateTimeBasedInflation" true "Authority" [SGuardAuthority "Authority"; SPure; SRead "k.GetTimeBasedInflation"; SCheck; SPure; SWrite "k.SetTimeBasedInflation"; SReturn];
-  mkH "tokenomics" "DeleteAirdrop" "MsgDeleteAirdrop" true "Authority" [SGuardAuthority "Authority"; SPure; SRead "k.GetAirdrop"; SCheck; SGuardOwner "Authority" "valFound.Authority"; SWrite "k.RemoveAirdrop"; SReturn];
-  mkH "tokenomics" "DeleteTimeBasedInflation" "MsgDeleteTimeBasedInflation" true "Authority" [SGuardAuthority "Authority"; SPure; SRead "k.GetTimeBasedInflation"; SCheck; SGuardOwner "Authority" "valFound.Authority"; SWrite "k.RemoveTimeBasedInflation"; SReturn];
-  mkH "tokenomics" "UpdateAirdrop" "MsgUpdateAirdrop" true "Authority" [SGuardAuthority "Authority"; SPure; SRead "k.GetAirdrop"; SCheck; SGuardOwner "Authority" "valFound.Authority"; SPure; SWrite "k.SetAirdrop"; SReturn];
-  mkH "tokenomics" "UpdateGenesisInflation" "MsgUpdateGenesisInflation" true "Authority" [SGuardAuthority "Authority"; SPure; SPure; SWrite "k.SetGenesisInflation"; SReturn];
-  mkH "tokenomics" "UpdateTimeBasedInflation" "MsgUpdateTimeBasedInflation" true "Authority" [SGuardAuthority "Authority"; SPure; SRead "k.GetTimeBasedInflation"; SCheck; SGuardOwner "Authority" "valFound.Authority"; SPure; SWrite "k.SetTimeBasedInflation"; SReturn];
-  mkH "tradeshield" "CancelPerpetualOrder" "MsgCancelPerpetualOrder" false "OwnerAddress" [SPure; SRead "k.GetPendingPerpetualOrder"; SCheck; SGuardOwner "OwnerAddress" "order.OwnerAddress"; SPure; SWrite "k.Keeper.bank.SendCoins"; SCheck; SWrite "k.RemovePendingPerpetualOrder"; SPure; SReturn];
-  mkH "tradeshield" "CancelPerpetualOrders" "MsgCancelPerpetualOrders" false "OwnerAddress" [SCheck; SWrite "k.CancelPerpetualOrder"; SReturn];
-  mkH "tradeshield" "CancelSpotOrder" "MsgCancelSpotOrder" false "OwnerAddress" [SPure; SRead "k.GetPendingSpotOrder"; SCheck; SGuardOwner "OwnerAddress" "spotOrder.OwnerAddress"; SPure; SRead "k.Keeper.bank.GetAllBalances"; SWrite "k.Keeper.bank.SendCoins"; SWrite "k.RemovePendingSpotOrder"; SPure; SReturn];
-  mkH "tradeshield" "CancelSpotOrders" "MsgCancelSpotOrders" false "Creator" [SCheck; SWrite "k.CancelSpotOrder"; SReturn];
-  mkH "tradeshield" "CreatePerpetualCloseOrder" "MsgCreatePerpetualCloseOrder" false "OwnerAddress" [SReturn];
-  mkH "tradeshield" "CreatePerpetualOpenOrder" "MsgCreatePerpetualOpenOrder" false "OwnerAddress" [SPure; SRead "k.perpetual.GetPool"; SCheck; SPure; SPure; SKeyedLookup "OwnerAddress" "k.GetPendingPerpetualOrdersForAddress"; SCheck; SCheck; SKeyedLookup "OwnerAddress" "k.perpetual.GetMTPsForAddressWithPagination"; SCheck; SCheck; SWrite "k.AppendPendingPerpetualOrder"; SWrite "k.perpetual.HandleOpenEstimation"; SCheck; SPure; SPure; SWrite "k.Keeper.bank.SendCoins"; SCheck; SReturn];
-  mkH "tradeshield" "CreateSpotOrder" "MsgCreateSpotOrder" false "OwnerAddress" [SPure; SPure; SWrite "k.ExecuteMarketBuyOrder"; SWrite "k.AppendPendingSpotOrder"; SPure; SPure; SWrite "k.Keeper.bank.SendCoins"; SCheck; SReturn];
-  mkH "tradeshield" "ExecuteOrders" "MsgExecuteOrders" false "Creator" [SPure; SPure; SWrite "ctx.CacheContext"; SPure; SWrite "ctx.CacheContext"; SPure; SReturn];
-  mkH "tradeshield" "UpdateParams" "MsgUpdateParams" true "Authority" [SPure; SGuardAuthority "Authority"; SCheck; SWrite "k.storeService.OpenKVStore"; SWrite "k.cdc.Marshal"; SCheck; SPure; SCheck; SReturn];
-  mkH "tradeshield" "UpdatePerpetualOrder" "MsgUpdatePerpetualOrder" false "OwnerAddress" [SPure; SRead "k.GetPendingPerpetualOrder"; SCheck; SGuardOwner "OwnerAddress" "order.OwnerAddress"; SRead "k.perpetual.GetParams"; SPure; SCheck; SCheck; SPure; SWrite "k.SetPendingPerpetualOrder"; SReturn];
-  mkH "tradeshield" "UpdateSpotOrder" "MsgUpdateSpotOrder" false "OwnerAddress" [SPure; SRead "k.GetPendingSpotOrder"; SCheck; SGuardOwner "OwnerAddress" "order.OwnerAddress"; SPure; SWrite "k.SetPendingSpotOrder"; SReturn]
-].
+(* gotrans failed on the current tree *)
+Definition handlers := gotrans_failed_on_the_current_tree_see_log.
